@@ -2,7 +2,7 @@
 (* Property-level Reference for the test-smell report (C11), written from the        *)
 (* property statement.  Pure operators over one trace record                         *)
 (*   rec.input    : [layout, via, style, files : Seq(File), extras : Seq([dirs, name])]*)
-(*     File   = [dirs : Seq(String), name, pkg, cls, imports, fields, methods : Seq(Method)] *)
+(*     File   = [dirs : Seq(String), name, pkg, cls, imports, classAnnos, fields, methods : Seq(Method)] *)
 (*     Method = [name, annos : Seq([name, arg]), body : Seq(Stmt)]                    *)
 (*     Stmt   = [noise : BOOLEAN, call : Call, wrap, join]   (noise: no invocation)   *)
 (*     Call   = [recv, f, new : BOOLEAN, args : Seq(Arg)]                             *)
@@ -78,9 +78,9 @@ BodyCalls(body, lines, i) ==
 AnnoNames(m) == {m.annos[i].name : i \in DOMAIN m.annos}
 IsTestMethod(m) == AnnoNames(m) \cap {"Test", "Ignore"} # {}
 
-\* an unqualified invocation of a method declared in the same class
+\* an invocation of a method declared in the same class: unqualified, or qualified by `this`
 HelperTargets(f, c) ==
-  IF c.new \/ c.recv # "" THEN {} ELSE {j \in DOMAIN f.methods : f.methods[j].name = c.f}
+  IF c.new \/ c.recv \notin {"", "this"} THEN {} ELSE {j \in DOMAIN f.methods : f.methods[j].name = c.f}
 
 Cnt(s, P(_)) == Cardinality({k \in DOMAIN s : P(s[k])})
 
